@@ -24,16 +24,22 @@ import (
 
 var c11mint int64
 
-// c11fresh returns a value of a struct type that did not exist before (the struct-field cache has to be filled for it).
-func c11fresh(tag string) interface{} {
+// c11mintType returns a struct type that did not exist before (the struct-field cache has to be filled for it).
+func c11mintType() reflect.Type {
 	n := atomic.AddInt64(&c11mint, 1)
 	str := reflect.TypeOf("")
-	t := reflect.StructOf([]reflect.StructField{
+	return reflect.StructOf([]reflect.StructField{
 		{Name: "Name", Type: str},
 		{Name: "Inner", Type: reflect.TypeOf(data.Inner{}), Anonymous: true},
 		{Name: fmt.Sprintf("U%d", n), Type: reflect.TypeOf(0)},
 		{Name: "Tag", Type: str},
 	})
+}
+
+// c11fresh returns a value of a struct type no execution has seen yet.
+func c11fresh(tag string) interface{} { return c11valueOf(c11mintType(), tag) }
+
+func c11valueOf(t reflect.Type, tag string) interface{} {
 	v := reflect.New(t).Elem()
 	v.Field(0).SetString("outer-" + tag)
 	v.Field(1).Set(reflect.ValueOf(data.Inner{Name: "inner-" + tag, Other: "other-" + tag, Num: 7}))
@@ -70,9 +76,11 @@ func c11vars() jet.VarMap {
 	return v
 }
 
-func c11exec(t *jet.Template, tag string) string {
+func c11exec(t *jet.Template, tag string) string { return c11execData(t, c11fresh(tag)) }
+
+func c11execData(t *jet.Template, data interface{}) string {
 	var b bytes.Buffer
-	res := jx.ExecW(t, &b, c11vars(), c11fresh(tag))
+	res := jx.ExecW(t, &b, c11vars(), data)
 	if res.Panic != nil {
 		return fmt.Sprintf("PANIC:%v", res.Panic)
 	}
@@ -212,6 +220,14 @@ func c11run(c *fw.Ctx, idx int) {
 		progSets = append(progSets, p.NewSet(false))
 	}
 
+	// struct types minted now and met for the first time by several goroutines at about the same moment:
+	// consecutive executions (by whichever goroutines) share one type
+	sharedTypes := make([]reflect.Type, goroutines*ops/goroutines+1)
+	for i := range sharedTypes {
+		sharedTypes[i] = c11mintType()
+	}
+	var sharedCtr int64
+
 	start := time.Now()
 	now := func() int64 { return int64(time.Since(start)) }
 	var mu sync.Mutex
@@ -243,7 +259,13 @@ func c11run(c *fw.Ctx, idx int) {
 					local["GetTemplate+Execute"]++
 					got := "LOADERR"
 					if err == nil {
-						got = c11exec(t, "TAG")
+						k := int(atomic.AddInt64(&sharedCtr, 1)) / goroutines
+						if k < len(sharedTypes) && rr.Intn(3) != 0 {
+							got = c11execData(t, c11valueOf(sharedTypes[k], "TAG"))
+							local["executions on a struct type first met concurrently"]++
+						} else {
+							got = c11exec(t, "TAG")
+						}
 					} else {
 						got += ":" + err.Error()
 					}
@@ -387,7 +409,7 @@ func init() {
 	fw.Register(&fw.Property{
 		ID:        "C11",
 		Technique: "Go race detector over a concurrent workload + serial-result comparison of every concurrent Execute + porcupine linearizability check of recorded global/dev-mode-template register histories",
-		Rule: "each case is one round: 16 (thorough 32) goroutines issue 120 (400) random operations on one Set: GetTemplate+Execute of 9 stable templates (extends/import/blocks, ranges of every ranger kind incl. nested, field access on struct types minted per execution, include, try, functions, escaping) and of 5 generated template sets per round (the program generator with blocks, includes, try, failures, SafeWriters, exec switched on; each on a cold Set of its own shared by all goroutines), first-time loads of 6 templates requested by several goroutines at once, Parse+Execute, AddGlobal/LookupGlobal/executions rendering a global, " +
+		Rule: "each case is one round: 16 (thorough 32) goroutines issue 120 (400) random operations on one Set: GetTemplate+Execute of 9 stable templates (extends/import/blocks, ranges of every ranger kind incl. nested, field access on struct types minted per execution or shared by ~16 consecutive executions of different goroutines (first met concurrently), include, try, functions, escaping) and of 5 generated template sets per round (the program generator with blocks, includes, try, failures, SafeWriters, exec switched on; each on a cold Set of its own shared by all goroutines), first-time loads of 6 templates requested by several goroutines at once, Parse+Execute, AddGlobal/LookupGlobal/executions rendering a global, " +
 			"and on a development-mode Set InMemLoader.Set versus GetTemplate+Execute; the recording loader/cache yield or sleep 0-80us inside every call; oracles: zero race-detector reports and no fatal error (worker death), every concurrent Execute on unedited inputs equals the output computed alone beforehand, " +
 			"the timed history of writes (AddGlobal, loader Set with unique tokens) and reads (LookupGlobal, rendering executions) is linearizable as one register per key (porcupine, 60 s timeout = inconclusive); non-trivial/distinct = rounds (each with its own interleavings; overlapping operation pairs and first-time loads are reported)",
 		Assumptions: []string{"interleavings are those the scheduler produced in this run (reported as overlapping pairs), not all interleavings", "non-development first loads are not modelled as registers (two concurrent first loads may cache either version)"},
